@@ -144,7 +144,7 @@ def cases(seed, tier):
         c = gen_aligned_case(rng)
         c.update(kind='nf', via='api')
         out.append(c)
-    n_d25 = 6 if tier == 'quick' else 60
+    n_d25 = 30 if tier == 'quick' else 300
     for i in range(n_d25):
         c = gen_source_case(rng, d25=True)
         c.update(kind='nf', via='api', stratum='d25')
